@@ -96,6 +96,8 @@ ResultOK ==
       [] op.name = "get"     -> op.raised = "" /\ KeySet(op.res) = KeySet(op.keys) \cap mapPrev
       [] op.name = "meta"    -> op.raised = "" /\ KeySet(op.res) = KeySet(op.keys) \cap mapPrev
       [] op.name = "list"    -> op.raised = "" /\ KeySet(op.res) = mapPrev /\ Len(op.res) = Cardinality(mapPrev)
+      [] op.name = "listpart" -> /\ op.raised = "" /\ KeySet(op.res) \subseteq mapPrev
+                                 /\ Len(op.res) = (IF mapPrev = {} THEN 0 ELSE 1)      \* abandoned after the first item
       [] op.name = "import"  -> /\ op.raised = ""       \* res = source keys mentioned by a correct mapping
                                 /\ KeySet(op.res) \subseteq (KeySet(op.keys) \cap KeySet(op.src))
                                 /\ ((KeySet(op.keys) \cap KeySet(op.src)) \ mapPrev) \subseteq KeySet(op.res)
@@ -108,7 +110,7 @@ C02_Views == IsStep => /\ ViewHas /\ ViewGetBulk /\ ViewGetSingle /\ ViewMeta /\
 C02_Result == IsStep => ResultOK
 
 (* ---- C08: views through long-open handles (explicit view calls of the history) ---- *)
-C08_HandleViews == (IsStep /\ op.name \in {"has", "get", "meta", "list"}) => ResultOK
+C08_HandleViews == (IsStep /\ op.name \in {"has", "get", "meta", "list", "listpart"}) => ResultOK
 
 (* ---- C14: importing transfers exactly the requested objects ---- *)
 C14_ImportExact == (IsStep /\ op.name = "import") =>
